@@ -152,6 +152,14 @@ def _run_one(args):
         return {"id": case["id"], "crash": "%s\n%s" % (e, traceback.format_exc()[-2000:])}
     finally:
         shutil.rmtree(out, ignore_errors=True)
+    if r["harness_errors"]:
+        return {"id": case["id"], "crash": "; ".join(r["harness_errors"][:3])}
+    if not r["reached_init"] and r["status"] != "hang":
+        # make_nuwiki ended before the fetcher fanned out: nothing to validate; the real code's failure
+        # is reported as such (a run without a final state is never handed to TLC)
+        return {"id": case["id"], "status": "failed", "error": r["error"] or "make_nuwiki ended before Fetcher.__init__ completed",
+                "hang": False, "trace": {"ev": []}, "noinit": True, "nreq": len(r["requests"]), "nev": 0,
+                "stderr": r["stderr"][-1500:], "leak": []}
     if r["hang"]:
         return {"id": case["id"], "status": r["status"], "error": r["error"], "hang": True, "trace": {"ev": []},
                 "nreq": len(r["requests"]), "nev": 0, "stderr": r["stderr"][-1500:], "leak": []}
@@ -324,7 +332,7 @@ def run(ctx):
     for r in results:
         if "crash" in r:
             ctx.machinery("harness crashed on case %d: %s" % (r["id"], r["crash"]))
-    traces = [r["trace"] for r in results if not r["hang"]]
+    traces = [r["trace"] for r in results if not r["hang"] and not r.get("noinit")]
     t2 = time.time()
     verdicts, rejected, finals, tr_states, tr_trans = {}, {}, {}, 0, 0
     batch = 400
@@ -378,7 +386,7 @@ def replay(ctx, path):
         rec = json.load(f)
     case = rec["replay"]["case"]
     results = execute(ctx, [case])
-    traces = [r["trace"] for r in results if "trace" in r and not r.get("hang")]
+    traces = [r["trace"] for r in results if "trace" in r and not r.get("hang") and not r.get("noinit")]
     verdicts, rejected, finals, _, _ = validate(ctx, traces, "replay")
     n = report(ctx, [case], results, verdicts, rejected, finals)
     if not n:
